@@ -1648,6 +1648,10 @@ class Project:
         state = dict(self.__dict__)
         # Locks are not pickleable and must be removed from the state
         del state["_lock"]
+        # The synced document and the stores are bound to this process and are
+        # re-created lazily.
+        state["_document"] = None
+        state["_stores"] = None
         return state
 
     def __setstate__(self, state):
